@@ -74,3 +74,6 @@ def run(ctx):
     from ..engines import dispatch as DP5
     DP5.d5_rule_delegates_to_the_same_question(ctx)
     ctx.floor("D5", 4)
+    # rules shared after round 11: the clause is necessary for this property as well
+    FE.e12_cache_before_recompute(ctx)
+    ctx.floor("E12", 1)
